@@ -103,6 +103,37 @@ func runC02(c *core.Case) {
 		steps = 5
 	}
 	var programs []any
+	if c.Index%5 == 3 {
+		// the very first transaction of the database is rolled back by the
+		// application (BEGIN; CREATE TABLE ...; ROLLBACK on a new file), sometimes
+		// after its cache spilled pages into the file: nothing exists afterwards
+		spec := pager.RollbackSpec{Mode: mode, Outcome: "rollback", NewPageN: first}
+		if c.Index%10 == 8 {
+			spec.SpillAfter, spec.UnwrittenNew = 1, 0
+		}
+		prev := mon.PosOf(n, "db")
+		res := conn.RunRollbackTx(spec)
+		programs = append(programs, spec)
+		c.Count("programs", 1)
+		detail := map[string]any{"page_size": ps, "sector": sector, "mode": mode, "spec": spec}
+		ctx := fmt.Sprintf("first transaction of a new database rolled back (%s, %d pages)", mode, first)
+		if healthViolations(c, n, ctx, detail) {
+			return
+		}
+		if res.Err != nil {
+			c.Violate("C02/op-refused/"+res.ErrStep, fmt.Sprintf("LiteFS failed a legal SQLite step %q on a healthy primary: %v (%s)", res.ErrStep, res.Err, ctx), detail)
+			return
+		}
+		if p := mon.PosOf(n, "db"); p != prev {
+			c.Violate("C02/rolledback-tx-changed-checksum", fmt.Sprintf("position %s -> %s (%s)", prev, p, ctx), detail)
+			return
+		}
+		if raw := mon.RawImage(mon.DBDir(n, "db")); raw.PageN != 0 {
+			c.Violate("C02/rolledback-tx-changed-image", fmt.Sprintf("%d pages exist after the rollback (%s)", raw.PageN, ctx), detail)
+			return
+		}
+		c.Count("first_tx_rolled_back", 1)
+	}
 	for i := 0; i <= steps; i++ {
 		cur := d.M.PageN
 		spec := pager.RollbackSpec{Mode: mode, Outcome: "commit", NewPageN: cur}
